@@ -40,6 +40,8 @@ echo "confirm: $confirm"
 IDS="$*"
 [ -n "$IDS" ] || IDS="C01 C02 C03 C04 C05 C06 C07 C08 C09 C10 C11 C12 C13 C14 C15 C16 C17 C18 C19 C20"
 git -C "$R" apply "$D/patch.diff" || exit 2
+# the scratch evidence directory knows the recorded findings too: a listed finding is not a catch
+mkdir -p "$VD"; cp "$HERE/KNOWN_FINDINGS.txt" "$VD/KNOWN_FINDINGS.txt"
 caught=""; missed=""; inconc=""
 for id in $IDS; do
   out=$(VERIF_REPO="$R" VERIF_DIR="$VD" "$HERE/check" "$id" quick 2>&1); rc=$?
